@@ -432,6 +432,9 @@ int main(int argc, char** argv)
                                 for (int maxlev : lml) {
                                     if (aniso >= nr_exp || (!thorough && aniso == 3))
                                         continue;
+                                    if (nr_exp == 6 && (div2 > 0 || nte > 5))
+                                        continue; // > 60k nodes under ASan: minutes per setup(), nothing new
+
                                     Spec s;
                                     s.kind = "levels";
                                     s.R0 = R0;
